@@ -23,34 +23,34 @@ theorem C17_run_shape (eps : α) (genKeys : List String) (n : Nat) (obs : List (
     (out.aborted = true ↔ ∃ h : out.steps ≠ [], (out.steps.getLast h).ok = false) ∧
     (out.aborted = false → out.stepI = n) := by
   intro out
-  refine ⟨rfl, (runLoop_length_le eps genKeys n obs).1, ?_, ?_, ?_⟩
+  refine ⟨rfl, (simLoop_length_le eps genKeys n obs).1, ?_, ?_, ?_⟩
   · intro i h
-    exact runLoop_ok_before_last eps genKeys n obs i h
+    exact simLoop_ok_before_last eps genKeys n obs i h
   · constructor
     · intro hab
-      show ∃ h : runLoop eps genKeys n obs ≠ [], ((runLoop eps genKeys n obs).getLast h).ok = false
-      have hab' : (runLoop eps genKeys n obs).any (fun s => !s.ok) = true := hab
+      show ∃ h : simLoop eps genKeys n obs ≠ [], ((simLoop eps genKeys n obs).getLast h).ok = false
+      have hab' : (simLoop eps genKeys n obs).any (fun s => !s.ok) = true := hab
       rw [List.any_eq_true] at hab'
       obtain ⟨s, hs, hsok⟩ := hab'
-      have hne : runLoop eps genKeys n obs ≠ [] := List.ne_nil_of_mem hs
+      have hne : simLoop eps genKeys n obs ≠ [] := List.ne_nil_of_mem hs
       refine ⟨hne, ?_⟩
       -- the failing step must be the last one
       obtain ⟨i, hi, rfl⟩ := List.getElem_of_mem hs
-      by_cases hl : i + 1 < (runLoop eps genKeys n obs).length
-      · have := runLoop_ok_before_last eps genKeys n obs i hl
+      by_cases hl : i + 1 < (simLoop eps genKeys n obs).length
+      · have := simLoop_ok_before_last eps genKeys n obs i hl
         simp [this] at hsok
-      · have : i = (runLoop eps genKeys n obs).length - 1 := by omega
+      · have : i = (simLoop eps genKeys n obs).length - 1 := by omega
         subst this
         rw [List.getLast_eq_getElem]
         simpa using hsok
     · rintro ⟨h, e⟩
-      show (runLoop eps genKeys n obs).any (fun s => !s.ok) = true
+      show (simLoop eps genKeys n obs).any (fun s => !s.ok) = true
       rw [List.any_eq_true]
       exact ⟨_, List.getLast_mem h, by simp [e]⟩
   · intro hab
-    have hab' : (runLoop eps genKeys n obs).any (fun s => !s.ok) = false := hab
+    have hab' : (simLoop eps genKeys n obs).any (fun s => !s.ok) = false := hab
     rw [List.any_eq_false] at hab'
-    exact runLoop_all_ok_full eps genKeys n obs hobs (fun s hs => by simpa using hab' s hs)
+    exact simLoop_all_ok_full eps genKeys n obs hobs (fun s hs => by simpa using hab' s hs)
 
 /-- An error raised by the strategy (or by event processing) at an observed step ends the run
 there: no later step is reported. -/
@@ -58,20 +58,20 @@ theorem C17_error_is_last (eps : α) (genKeys : List String) (n : Nat) (obs : Li
     (i : Nat) (hi : i < (run eps genKeys n obs).stepI) (h : i < obs.length)
     (herr : obs[i].eventError = true ∨ obs[i].stratError = true) :
     i + 1 = (run eps genKeys n obs).stepI ∧ (run eps genKeys n obs).aborted = true := by
-  have hi' : i < (runLoop eps genKeys n obs).length := hi
-  obtain ⟨_, e⟩ := runLoop_getElem eps genKeys n obs i hi'
-  have hnok : ((runLoop eps genKeys n obs)[i]'hi').ok = false := by
+  have hi' : i < (simLoop eps genKeys n obs).length := hi
+  obtain ⟨_, e⟩ := simLoop_getElem eps genKeys n obs i hi'
+  have hnok : ((simLoop eps genKeys n obs)[i]'hi').ok = false := by
     rw [e]
     unfold stepReport
     rcases herr with h1 | h1 <;> simp [h1]
   constructor
   · by_contra hne
-    have hl : i + 1 < (runLoop eps genKeys n obs).length := by
-      have : i + 1 ≠ (runLoop eps genKeys n obs).length := hne
+    have hl : i + 1 < (simLoop eps genKeys n obs).length := by
+      have : i + 1 ≠ (simLoop eps genKeys n obs).length := hne
       omega
-    have := runLoop_ok_before_last eps genKeys n obs i hl
+    have := simLoop_ok_before_last eps genKeys n obs i hl
     rw [hnok] at this; exact absurd this (by simp)
-  · show (runLoop eps genKeys n obs).any (fun s => !s.ok) = true
+  · show (simLoop eps genKeys n obs).any (fun s => !s.ok) = true
     rw [List.any_eq_true]
     exact ⟨_, List.getElem_mem hi', by simp [hnok]⟩
 
